@@ -245,6 +245,82 @@ func concurrent(cfg fw.Config, rec *fw.Rec) {
 	}
 }
 
+// nestedInPlace: interpreted actions and guards that change what lies BELOW a permanent
+// binding - inside arrays of objects, arrays of arrays - and then succeed, fail or reject.
+// A script works on a copy, so the value must come out as it went in.
+func nestedInPlace(rec *fw.Rec) {
+	mut := `function mut(x) { if (Array.isArray(x)) { for (var i = 0; i < x.length; i++) { if (x[i] !== null && typeof x[i] === 'object') { mut(x[i]); } else { x[i] = 'mutated'; } } } else if (x !== null && typeof x === 'object') { for (var k in x) { if (x[k] !== null && typeof x[k] === 'object') { mut(x[k]); } else { x[k] = 'mutated'; } } x.added = 'mutated'; } } var bs = _.bindings; for (var k in bs) { if (k.charAt(k.length - 1) === '!' && bs[k] !== null && typeof bs[k] === 'object') { mut(bs[k]); } } `
+	endings := map[string]string{"succeeds": `return bs;`, "throws": `throw new Error("after mutation");`, "returns-null": `return null;`, "returns-fresh": `return {only: 1};`}
+	perm := func() map[string]interface{} {
+		return map[string]interface{}{
+			"routes!": map[string]interface{}{"hops": []interface{}{map[string]interface{}{"w": 1.0}, []interface{}{map[string]interface{}{"v": 2.0}}}, "name": "r"},
+			"list!":   []interface{}{[]interface{}{1.0, map[string]interface{}{"deep": []interface{}{map[string]interface{}{"z": 3.0}}}}},
+			"plain!":  "keep", "n": 1.0,
+		}
+	}
+	want := fw.Canon(map[string]interface{}{"routes!": perm()["routes!"], "list!": perm()["list!"], "plain!": "keep"})
+	permOf := func(bs match.Bindings) string {
+		m := map[string]interface{}{}
+		for _, k := range []string{"routes!", "list!", "plain!"} {
+			if v, have := bs[k]; have {
+				m[k] = v
+			}
+		}
+		return fw.Canon(m)
+	}
+	for ending, tail := range endings {
+		for _, position := range []string{"action", "guard"} {
+			for settings := 0; settings < 3; settings++ {
+				src := &core.ActionSource{Interpreter: "ecmascript", Source: mut + tail}
+				spec := &core.Spec{Name: "nested", Nodes: map[string]*core.Node{"next": {}, "other": {}, "aerr": {}}}
+				switch settings {
+				case 1:
+					spec.ActionErrorBranches = true
+				case 2:
+					spec.ActionErrorNode = "aerr"
+				}
+				if position == "action" {
+					spec.Nodes["start"] = &core.Node{ActionSource: src, Branches: &core.Branches{Type: "bindings", Branches: []*core.Branch{{Target: "next"}}}}
+				} else {
+					spec.Nodes["start"] = &core.Node{Branches: &core.Branches{Type: "bindings", Branches: []*core.Branch{{GuardSource: src, Target: "next"}, {Target: "other"}}}}
+				}
+				if err := spec.Compile(context.Background(), nil, true); err != nil {
+					rec.Inconclusive("nested spec: " + err.Error())
+					return
+				}
+				desc := map[string]interface{}{"script": "mutate everything below the permanent bindings, then " + ending, "position": position, "settings": settings}
+				st := &core.State{NodeName: "start", Bs: match.Bindings(fw.Deep(perm()).(map[string]interface{}))}
+				var w *core.Walked
+				if rec.Guard("C18:nested", desc, func() { w, _ = spec.Walk(context.Background(), st, nil, &core.Control{Limit: 4}, nil) }) {
+					return
+				}
+				rec.Eval(1)
+				if got := permOf(st.Bs); got != want {
+					rec.Violation("C18:permanent-binding-altered:nested", "the caller's permanent bindings were changed below the top level: "+fw.Short(got), desc)
+					continue
+				}
+				bad := false
+				if w != nil && !(ending == "returns-null" && position == "action") { // what an action's null leaves of the bindings is not documented
+					for _, s := range w.Strides {
+						if s.To == nil {
+							continue
+						}
+						// (a guard-less fresh return keeps them too: they are restored)
+						if got := permOf(s.To.Bs); got != want {
+							rec.Violation("C18:permanent-binding-altered:nested", fmt.Sprintf("after a script that changed values below the permanent bindings and then %s (%s), the state at %s carries %s instead of %s", ending, position, s.To.NodeName, fw.Short(got), fw.Short(want)), desc)
+							bad = true
+							break
+						}
+					}
+				}
+				if !bad {
+					rec.Bucket("scripts_mutating_below_permanent_bindings")
+				}
+			}
+		}
+	}
+}
+
 func Run(cfg fw.Config, rec *fw.Rec) {
 	if cfg.Part == "conc" {
 		rec.Rule = "see the main part; concurrent part: 16 goroutines x 8 walks over one compiled hostile spec (native, native in-place, ECMAScript) from states with different permanent bindings or none, each result compared with the solo result, under -race"
@@ -252,8 +328,9 @@ func Run(cfg fw.Config, rec *fw.Rec) {
 		concurrent(cfg, rec)
 		return
 	}
-	rec.Rule = "two-node machines whose action and guards are hostile programs over the permanent keys (delete, overwrite, keep-only, copy-over, push, return {} / a fresh object / null / a number, fail, reject) run from states with 0-3 permanent bindings (scalar, nested, array, null, false values) and 0-3 ordinary ones, native (two failure modes; and a variant that mutates the bindings it is given in place, as core's Bindings.Remove / Extend / DeleteExcept do) and ECMAScript; plus random multi-node machines; for every stride the permanent bindings present before must be present and equal after, unless the node's action returned null (recorded, not judged); non-trivial = stride checked with >= 1 permanent binding; distinct by canonical (spec,state)"
-	rec.Required = []string{"strides_with_permanent_checked", "after_failing_action", "after_completed_action", "guard_rejected_then_next_branch", "guard_accepted", "render_ecma", "render_native", "render_native-inplace", "structured_permanent_value", "unjudged_action_returned_null", "native_walks_under_a_cancelled_context"}
+	rec.Rule = "two-node machines whose action and guards are hostile programs over the permanent keys (delete, overwrite, keep-only, copy-over, push, return {} / a fresh object / null / a number, fail, reject) run from states with 0-3 permanent bindings (scalar, nested, array, null, false values) and 0-3 ordinary ones, native (two failure modes; and a variant that mutates the bindings it is given in place, as core's Bindings.Remove / Extend / DeleteExcept do) and ECMAScript; plus interpreted scripts that change everything below structured permanent values (objects inside arrays inside objects) and then succeed / throw / return null / return a fresh object, as action and as guard, under 3 error settings; plus random multi-node machines; for every stride the permanent bindings present before must be present and equal after, unless the node's action returned null (recorded, not judged); non-trivial = stride checked with >= 1 permanent binding; distinct by canonical (spec,state)"
+	rec.Required = []string{"strides_with_permanent_checked", "after_failing_action", "after_completed_action", "guard_rejected_then_next_branch", "guard_accepted", "render_ecma", "render_native", "render_native-inplace", "structured_permanent_value", "unjudged_action_returned_null", "native_walks_under_a_cancelled_context", "scripts_mutating_below_permanent_bindings"}
+	nestedInPlace(rec)
 	n := cfg.Pick(60000, 3000000)
 	fw.Parallel(cfg.Workers, n, func(w, i int) {
 		r := cfg.Rng("c18", i)
